@@ -158,7 +158,7 @@ impl Monitor for C02 {
          lax diagrams (with pending unification pairs), all size combinations including empty node sets, edge sets and interfaces. Oracle: model juxtaposition computed by loops, \
          compared field for field (node labels, every incidence list, both interfaces, pending pairs offset by the left node count, compared as a multiset since their list order carries no meaning; also through the in-place tensor_assign; segment codomains via the deep walker); result \
          type = concatenation read through source()/target(); (f|g)|h == f|(g|h) and f|empty == f == empty|f as raw data. non-trivial = both operands non-empty or a fixed shape; \
-         distinct = hash of the triple."
+         distinct = hash of the triple. Also: lax results are walked (lengths of all public vectors, ranges), the three-fold lax tensor is compared with the model, and the identity on the unit object must be the empty diagram."
     }
     fn corpus_len(&self) -> u64 {
         6
